@@ -39,6 +39,8 @@ TEMPLATES = {
     "nolicence": ("nolicence.jinja2", "{% for copyright_line in copyright_lines %}\n{{ copyright_line }}\n{% endfor %}\n", False, None),
     "nocopyright": ("nocopyright.jinja2", "{% for expression in spdx_expressions %}\nSPDX-License-Identifier: {{ expression }}\n{% endfor %}\n", False, None),
     "nothing": ("nothing.jinja2", "This header intentionally left blank\n", False, None),
+    # keeps the first copyright line only (and the licences): drops information as soon as there are two holders
+    "firstonly": ("firstonly.jinja2", "{{ copyright_lines[0] }}\n\n{% for expression in spdx_expressions %}\nSPDX-License-Identifier: {{ expression }}\n{% endfor %}\n", False, None),
 }
 
 
